@@ -307,7 +307,7 @@ def replay(cex):
 
 
 def build_obligations(prop, tier):
-    tmo = 240000 if tier == "quick" else 900000
+    tmo = 600000 if tier == "quick" else 1200000
     obs = []
     if tier == "quick":
         shapes = [(1, 1, 2), (2, 2, 2), (1, 2, 3)]
